@@ -30,6 +30,22 @@ mod verif_c06_twins {
     use super::*;
     use crate::structures::paging::{Page, PageSize, PhysFrame, Size1GiB, Size2MiB, Size4KiB};
 
+    /// Checks every listed clause on its own path: Kani's `assert!` also ASSUMES its condition afterwards, so in a
+    /// plain sequence a failing earlier clause would hide a failing later one (and with it the later obligation).
+    macro_rules! check_each {
+        ($( $c:expr => $m:literal ),+ $(,)?) => {{
+            let pick: u8 = kani::any();
+            let mut k: u8 = 0;
+            $(
+                if pick == k {
+                    assert!($c, $m);
+                }
+                k += 1;
+            )+
+            let _ = k;
+        }};
+    }
+
     /// "the call returned although the input is invalid": see lib/C19_NOTES.md.
     #[inline(never)]
     fn returned_on_invalid_input() {
@@ -115,11 +131,12 @@ mod verif_c06_twins {
         let (_k, al) = any_pow2();
         kani::cover!(true, "c06_twin_physaddr_align_down_exact: reachable");
         let r = p.align_down(al).as_u64();
-        assert!(
-            r <= a && a - r < al && r % al == 0,
-            "C06.PhysAddr_align_down.greatest_multiple: the greatest multiple of align not above self"
-        );
-        assert!(r < TWO52, "C03.PhysAddr_align_down.valid: the result is below 2^52");
+        check_each! {
+            r <= a && a - r < al && r % al == 0
+                => "C06.PhysAddr_align_down.greatest_multiple: the greatest multiple of align not above self",
+            r < TWO52
+                => "C03.PhysAddr_align_down.valid: the result is below 2^52",
+        }
     }
 
     //@ obligation C06 C06.PhysAddr_align_down.greatest_multiple
@@ -141,11 +158,12 @@ mod verif_c06_twins {
         let (_k, al) = any_pow2();
         kani::cover!(true, "c06_twin_physaddr_align_down_u64_exact: reachable");
         let r = p.align_down_u64(al).as_u64();
-        assert!(
-            r <= a && a - r < al && r % al == 0,
-            "C06.PhysAddr_align_down_u64.greatest_multiple: the greatest multiple of align not above self"
-        );
-        assert!(r < TWO52, "C03.PhysAddr_align_down_u64.valid: the result is below 2^52");
+        check_each! {
+            r <= a && a - r < al && r % al == 0
+                => "C06.PhysAddr_align_down_u64.greatest_multiple: the greatest multiple of align not above self",
+            r < TWO52
+                => "C03.PhysAddr_align_down_u64.valid: the result is below 2^52",
+        }
     }
 
     //@ obligation C06 C06.PhysAddr_align_down_u64.greatest_multiple
@@ -170,11 +188,12 @@ mod verif_c06_twins {
         kani::cover!(true, "c06_twin_physaddr_align_up_exact: reachable");
         kani::cover!(a % al != 0, "c06_twin_physaddr_align_up_exact: rounds");
         let r = p.align_up(al).as_u64();
-        assert!(
-            r >= a && r - a < al && r % al == 0 && r as u128 == up(a, al),
-            "C06.PhysAddr_align_up.least_multiple_or_panic_at_2_52: the least multiple of align not below self"
-        );
-        assert!(r < TWO52, "C03.PhysAddr_align_up.valid: the result is below 2^52");
+        check_each! {
+            r >= a && r - a < al && r % al == 0 && r as u128 == up(a, al)
+                => "C06.PhysAddr_align_up.least_multiple_or_panic_at_2_52: the least multiple of align not below self",
+            r < TWO52
+                => "C03.PhysAddr_align_up.valid: the result is below 2^52",
+        }
     }
 
     //@ obligation C06 C06.PhysAddr_align_up.least_multiple_or_panic_at_2_52
@@ -207,10 +226,10 @@ mod verif_c06_twins {
         let (_k, al) = any_pow2();
         kani::cover!(true, "c06_twin_physaddr_is_aligned_exact: reachable");
         let r = p.is_aligned(al);
-        assert!(
-            r == (a % al == 0),
-            "C06.PhysAddr_is_aligned.iff_multiple: true exactly for multiples of align"
-        );
+        check_each! {
+            r == (a % al == 0)
+                => "C06.PhysAddr_is_aligned.iff_multiple: true exactly for multiples of align",
+        }
     }
 
     //@ obligation C06 C06.PhysAddr_is_aligned.iff_multiple
@@ -231,10 +250,10 @@ mod verif_c06_twins {
         let (_k, al) = any_pow2();
         kani::cover!(true, "c06_twin_physaddr_is_aligned_u64_exact: reachable");
         let r = p.is_aligned_u64(al);
-        assert!(
-            r == (a % al == 0),
-            "C06.PhysAddr_is_aligned_u64.iff_multiple: true exactly for multiples of align"
-        );
+        check_each! {
+            r == (a % al == 0)
+                => "C06.PhysAddr_is_aligned_u64.iff_multiple: true exactly for multiples of align",
+        }
     }
 
     //@ obligation C06 C06.PhysAddr_is_aligned_u64.iff_multiple
@@ -266,11 +285,12 @@ mod verif_c06_twins {
         let (k, al) = any_pow2();
         kani::cover!(true, "c06_twin_virtaddr_align_down_exact: reachable");
         let r = v.align_down(al).as_u64();
-        assert!(
-            virt_align_down_post(a, k, al, r),
-            "C06.VirtAddr_align_down.greatest_canonical_multiple: greatest multiple not above self (same half) for align <= 2^47, its sign extension beyond"
-        );
-        assert!(canonical(r), "C03.VirtAddr_align_down.valid: the result is canonical");
+        check_each! {
+            virt_align_down_post(a, k, al, r)
+                => "C06.VirtAddr_align_down.greatest_canonical_multiple: greatest multiple not above self (same half) for align <= 2^47, its sign extension beyond",
+            canonical(r)
+                => "C03.VirtAddr_align_down.valid: the result is canonical",
+        }
     }
 
     //@ obligation C06 C06.VirtAddr_align_down.greatest_canonical_multiple
@@ -292,11 +312,12 @@ mod verif_c06_twins {
         let (k, al) = any_pow2();
         kani::cover!(true, "c06_twin_virtaddr_align_down_u64_exact: reachable");
         let r = v.align_down_u64(al).as_u64();
-        assert!(
-            virt_align_down_post(a, k, al, r),
-            "C06.VirtAddr_align_down_u64.greatest_canonical_multiple: greatest multiple not above self (same half) for align <= 2^47, its sign extension beyond"
-        );
-        assert!(canonical(r), "C03.VirtAddr_align_down_u64.valid: the result is canonical");
+        check_each! {
+            virt_align_down_post(a, k, al, r)
+                => "C06.VirtAddr_align_down_u64.greatest_canonical_multiple: greatest multiple not above self (same half) for align <= 2^47, its sign extension beyond",
+            canonical(r)
+                => "C03.VirtAddr_align_down_u64.valid: the result is canonical",
+        }
     }
 
     //@ obligation C06 C06.VirtAddr_align_down_u64.greatest_canonical_multiple
@@ -322,15 +343,14 @@ mod verif_c06_twins {
         kani::cover!(true, "c06_twin_virtaddr_align_up_exact: reachable");
         kani::cover!(u == TWO47 as u128, "c06_twin_virtaddr_align_up_exact: lower half rounds up to 2^47");
         let r = v.align_up(al).as_u64();
-        assert!(
-            r == sext48(u as u64),
-            "C06.VirtAddr_align_up.least_canonical_multiple: the sign extension of the least multiple not below self"
-        );
-        assert!(
-            k > 47 || (r % al == 0 && (r as u128 == u || (u == TWO47 as u128 && r == 0xffff_8000_0000_0000))),
-            "C06.VirtAddr_align_up.least_canonical_multiple: for align <= 2^47 the least canonical multiple not below self (2^47 becomes the first upper-half address)"
-        );
-        assert!(canonical(r), "C03.VirtAddr_align_up.valid: the result is canonical");
+        check_each! {
+            r == sext48(u as u64)
+                => "C06.VirtAddr_align_up.least_canonical_multiple: the sign extension of the least multiple not below self",
+            k > 47 || (r % al == 0 && (r as u128 == u || (u == TWO47 as u128 && r == 0xffff_8000_0000_0000)))
+                => "C06.VirtAddr_align_up.least_canonical_multiple: for align <= 2^47 the least canonical multiple not below self (2^47 becomes the first upper-half address)",
+            canonical(r)
+                => "C03.VirtAddr_align_up.valid: the result is canonical",
+        }
     }
 
     //@ obligation C06 C06.VirtAddr_align_up.least_canonical_multiple
@@ -365,10 +385,10 @@ mod verif_c06_twins {
         kani::assume(k <= 47);
         kani::cover!(true, "c06_twin_virtaddr_is_aligned_exact: reachable");
         let r = v.is_aligned(al);
-        assert!(
-            r == (a % al == 0),
-            "C06.VirtAddr_is_aligned.iff_multiple: true exactly for multiples of align (align <= 2^47)"
-        );
+        check_each! {
+            r == (a % al == 0)
+                => "C06.VirtAddr_is_aligned.iff_multiple: true exactly for multiples of align (align <= 2^47)",
+        }
     }
 
     //@ obligation C06 C06.VirtAddr_is_aligned.iff_multiple
@@ -391,10 +411,10 @@ mod verif_c06_twins {
         kani::assume(k <= 47);
         kani::cover!(true, "c06_twin_virtaddr_is_aligned_u64_exact: reachable");
         let r = v.is_aligned_u64(al);
-        assert!(
-            r == (a % al == 0),
-            "C06.VirtAddr_is_aligned_u64.iff_multiple: true exactly for multiples of align (align <= 2^47)"
-        );
+        check_each! {
+            r == (a % al == 0)
+                => "C06.VirtAddr_is_aligned_u64.iff_multiple: true exactly for multiples of align (align <= 2^47)",
+        }
     }
 
     //@ obligation C06 C06.VirtAddr_is_aligned_u64.iff_multiple
@@ -431,18 +451,14 @@ mod verif_c06_twins {
         };
         kani::cover!(true, "c06_twin_page_containing_address: reachable");
         kani::cover!(sel == 2 && a % size != 0, "c06_twin_page_containing_address: 1 GiB, unaligned address");
-        assert!(
-            r <= a && a - r < size && r % size == 0,
-            "C06.Page_containing_address.aligned_start_within_one_page: size-aligned start, not above the address and less than one page below it"
-        );
-        assert!(
-            (r >> 47) == (a >> 47) && (a % size != 0 || r == a),
-            "C06.Page_containing_address.aligned_start_within_one_page: same half; an aligned address is its own page start"
-        );
-        assert!(
-            canonical(r) && r % size == 0,
-            "C03.Page_containing_address.valid: the start address is canonical and size-aligned"
-        );
+        check_each! {
+            r <= a && a - r < size && r % size == 0
+                => "C06.Page_containing_address.aligned_start_within_one_page: size-aligned start, not above the address and less than one page below it",
+            (r >> 47) == (a >> 47) && (a % size != 0 || r == a)
+                => "C06.Page_containing_address.aligned_start_within_one_page: same half; an aligned address is its own page start",
+            canonical(r) && r % size == 0
+                => "C03.Page_containing_address.valid: the start address is canonical and size-aligned",
+        }
     }
 
     /// Some(start address) for Ok
@@ -469,16 +485,17 @@ mod verif_c06_twins {
         };
         kani::cover!(true, "c06_twin_page_from_start_address: reachable");
         kani::cover!(sel == 2 && r.is_some(), "c06_twin_page_from_start_address: 1 GiB accepted");
-        assert!(
-            r.is_some() == (a % size == 0),
-            "C06.Page_from_start_address.ok_iff_aligned: Ok exactly for size-aligned addresses"
-        );
+        check_each! {
+            r.is_some() == (a % size == 0)
+                => "C06.Page_from_start_address.ok_iff_aligned: Ok exactly for size-aligned addresses",
+        }
         if let Some(s) = r {
-            assert!(s == a, "C06.Page_from_start_address.ok_iff_aligned: returns the address unchanged");
-            assert!(
-                canonical(s) && s % size == 0,
-                "C03.Page_from_start_address.valid: the start address is canonical and size-aligned"
-            );
+            check_each! {
+                s == a
+                    => "C06.Page_from_start_address.ok_iff_aligned: returns the address unchanged",
+                canonical(s) && s % size == 0
+                    => "C03.Page_from_start_address.valid: the start address is canonical and size-aligned",
+            }
         }
     }
 
@@ -503,14 +520,12 @@ mod verif_c06_twins {
         };
         kani::cover!(true, "c06_twin_physframe_containing_address: reachable");
         kani::cover!(sel == 2 && a % size != 0, "c06_twin_physframe_containing_address: 1 GiB, unaligned address");
-        assert!(
-            r <= a && a - r < size && r % size == 0 && (a % size != 0 || r == a),
-            "C06.PhysFrame_containing_address.aligned_start_within_one_frame: size-aligned start, not above the address and less than one frame below it"
-        );
-        assert!(
-            r < TWO52 && r % size == 0,
-            "C03.PhysFrame_containing_address.valid: the start address is below 2^52 and size-aligned"
-        );
+        check_each! {
+            r <= a && a - r < size && r % size == 0 && (a % size != 0 || r == a)
+                => "C06.PhysFrame_containing_address.aligned_start_within_one_frame: size-aligned start, not above the address and less than one frame below it",
+            r < TWO52 && r % size == 0
+                => "C03.PhysFrame_containing_address.valid: the start address is below 2^52 and size-aligned",
+        }
     }
 
     fn frame_from_start<S: PageSize>(p: PhysAddr) -> Option<u64> {
@@ -535,16 +550,17 @@ mod verif_c06_twins {
         };
         kani::cover!(true, "c06_twin_physframe_from_start_address: reachable");
         kani::cover!(sel == 2 && r.is_some(), "c06_twin_physframe_from_start_address: 1 GiB accepted");
-        assert!(
-            r.is_some() == (a % size == 0),
-            "C06.PhysFrame_from_start_address.ok_iff_aligned: Ok exactly for size-aligned addresses"
-        );
+        check_each! {
+            r.is_some() == (a % size == 0)
+                => "C06.PhysFrame_from_start_address.ok_iff_aligned: Ok exactly for size-aligned addresses",
+        }
         if let Some(s) = r {
-            assert!(s == a, "C06.PhysFrame_from_start_address.ok_iff_aligned: returns the address unchanged");
-            assert!(
-                s < TWO52 && s % size == 0,
-                "C03.PhysFrame_from_start_address.valid: the start address is below 2^52 and size-aligned"
-            );
+            check_each! {
+                s == a
+                    => "C06.PhysFrame_from_start_address.ok_iff_aligned: returns the address unchanged",
+                s < TWO52 && s % size == 0
+                    => "C03.PhysFrame_from_start_address.valid: the start address is below 2^52 and size-aligned",
+            }
         }
     }
 }
